@@ -12,7 +12,7 @@ import b3
 import vlib
 
 PROP = "C14"
-FAMILIES = ["expr", "scope", "func", "loops", "records", "index"]
+FAMILIES = ["expr", "scope", "func", "loops", "records", "index", "hof", "multifor"]
 
 
 def parse_out(stdout):
@@ -40,7 +40,8 @@ def run(tier, seed):
     cov = {"tlc_runs": [], "samples": []}
     states = transitions = 0
     all_cases = []
-    for fam in FAMILIES:
+    import os
+    for fam in (os.environ.get("VERIF_C14_FAMILIES", "").split(",") if os.environ.get("VERIF_C14_FAMILIES") else FAMILIES):
         cs, g = b3.gen_cases("MiniMillerGen", {"Family": '"%s"' % fam}, timeout=3000)
         states += g.distinct
         transitions += g.generated
@@ -91,13 +92,17 @@ def run(tier, seed):
                     {"program": c["src"], "input": c["recs"], "observed": obs[idx]["out"], "expected": p.get("expected"),
                      "stderr": res[i]["stderr"][:300]})
     import copy
-    base = next(o for o in obs if len(o["out"]) >= 2 and o["out"][0][0] == "p")
-    cor = copy.deepcopy(base)
-    cor["out"] = cor["out"][1:]
-    sb, _ = b3.validate("MiniMillerObs", [cor, base])
-    st = {"ok": [b[0] for b in sb] == [0]}
+    badset = {idx for idx, _ in bad}
+    base = next((o for k, o in enumerate(obs) if k not in badset and len(o["out"]) >= 2 and o["out"][0][0] == "p"), None)
+    if base is None:
+        st = {"ok": None, "why": "no conforming observation to corrupt"}
+    else:
+        cor = copy.deepcopy(base)
+        cor["out"] = cor["out"][1:]
+        sb, _ = b3.validate("MiniMillerObs", [cor, base])
+        st = {"ok": [b[0] for b in sb] == [0]}
     cov["obs_selftest"] = st
-    if not st["ok"]:
+    if st["ok"] is False:
         raise vlib.Inconclusive("observation self-test failed")
     fatal = sum(1 for o in obs if o["out"] == [["fatal"]])
     cov["samples"] += [{"program": all_cases[omap[k]][1]["src"], "observed": obs[k]["out"][:6]} for k in (0, len(obs) // 3, len(obs) - 1)]
